@@ -14,11 +14,12 @@ for fn in os.listdir(src):
         for m in re.finditer(r"\bc(\d\d)_[qt]_", re.sub(r"//[^\n]*", "", open(os.path.join(src, fn)).read())):
             have.add("C" + m.group(1))
 
+claimed = set(json.load(open(os.path.join(V, "claimed.json"))))
 checks, na = [], []
 for p in props:
     pid = p["id"]
     meta = propmeta.META.get(pid)
-    if pid in have and meta and not meta.get("not_applicable"):
+    if pid in claimed and pid in have and meta and not meta.get("not_applicable"):
         checks.append({
             "property_id": pid,
             "quick_cmd": "./check %s --tier quick" % pid,
